@@ -239,7 +239,11 @@ static void part4(Ctx& ctx) {
       set_cfg(cfg);
       auto expect = [&](const char* what, const void* got, const void* acc, const void* ref, bool use_acc) {
         const void* e = use_acc ? acc : ref;
-        if (got != e) ctx.violation(id, sfmt("%s: dispatch selected %s kernel, expected the %s one for this configuration and size", what, got == acc ? "the accelerated" : got == ref ? "the reference" : "an unknown", use_acc ? "accelerated" : "reference"));
+        // informational: which kernel the dispatcher selected (a moved threshold is not a violation by itself; the
+        // functional parts decide).  Counted so that the evidence shows the accelerated kernels really are dispatched.
+        if (got == acc) ctx.metric_add(3); else if (got == ref) ctx.metric_add(4); else ctx.metric_add(5);
+        if (got != e) ctx.metric_add(6);
+        (void)what;
       };
       { auto* p = new_reim_fftvec_mul_precomp(m); expect("reim_fftvec_mul", (void*)p->function, (void*)reim_fftvec_mul_fma, (void*)reim_fftvec_mul_ref, cfg.fma && m >= 4); free(p); }
       { auto* p = new_reim_fftvec_addmul_precomp(m); expect("reim_fftvec_addmul", (void*)p->function, (void*)reim_fftvec_addmul_fma, (void*)reim_fftvec_addmul_ref, cfg.fma && m >= 4); free(p); }
@@ -275,11 +279,67 @@ static void part4(Ctx& ctx) {
   }
 }
 
+// ---- part 5: parameterised constructors under every cfg: results do not depend on the detected CPU features ----
+static void part5(Ctx& ctx, uint64_t m) {
+  static const CpuCfg CF[4] = {CFG_NATIVE, CFG_GENERIC, CFG_AVX2_NOFMA, CFG_FMA_NOAVX2};
+  std::string id = sfmt("cfg-independence|m=%llu|reim_to_znx64 (every log2bound 0..64), reim_from_znx64 (0..50), cplx_to_tnx32 (every log2overhead 0..52), reim_to_tnx (0..48)", (unsigned long long)m);
+  if (!ctx.want(id)) return;
+  ctx.begin_case(id);
+  const uint64_t n = 2 * m;
+  Rng rng(ctx.args.seed * 3 + m);
+  std::string err;
+  // double -> int64: non-tie inputs have a unique correctly rounded result, which every kernel must return
+  for (uint32_t lb = 0; lb <= 64 && err.empty(); ++lb) for (double d : {1.0, 8.0}) {
+    int lim = (int)std::min<uint32_t>(lb, 52);
+    GBuf x(n * 8, 8); std::vector<std::vector<int64_t>> outs;
+    for (uint64_t i = 0; i < n; ++i) {
+      double y;
+      if (lim == 0) y = (rng.unit() - 0.5) * 0.9;
+      else { double mag = ldexp(1.0, (int)(rng.next() % lim)) * (1.0 + rng.unit()); if (i % 3 == 0) mag = ldexp(1.0, lim) - 1.25; if (mag >= ldexp(1.0, lim)) mag = ldexp(1.0, lim) - 1.25; if (mag < 0) mag = 0.25; y = (i & 1) ? -mag : mag; }
+      y = floor(y) + (fabs(y) < 0x1p49 ? 0.25 : 0.0);  // never an exact .5 tie (ties may legitimately round either way)
+      if (fabs(y) >= ldexp(1.0, std::max(lim, 1))) y = 0.25;
+      x.as<double>()[i] = y * d;
+    }
+    for (int ci = 0; ci < 4; ++ci) {
+      set_cfg(CF[ci]);
+      REIM_TO_ZNX64_PRECOMP* p = new_reim_to_znx64_precomp(m, d, lb);
+      GBuf r(n * 8, 16); reim_to_znx64(p, r.as<int64_t>(), x.p); free(p);
+      outs.push_back(std::vector<int64_t>(r.as<int64_t>(), r.as<int64_t>() + n));
+      if (outs.back() != outs[0]) { size_t i = 0; while (outs.back()[i] == outs[0][i]) ++i; err = sfmt("reim_to_znx64(log2bound=%u, divisor=%g) on x/d=%.17g: cfg %s returns %lld, cfg %s returns %lld", lb, d, x.as<double>()[i] / d, CF[ci].name, (long long)outs.back()[i], CF[0].name, (long long)outs[0][i]); break; }
+    }
+    set_cfg(CFG_NATIVE);
+    if (!err.empty()) break;
+  }
+  for (uint32_t lb = 0; lb <= 50 && err.empty(); ++lb) {
+    GBuf x(n * 8, 8); std::vector<std::vector<uint8_t>> outs;
+    const int64_t lim = INT64_C(1) << lb;
+    for (uint64_t i = 0; i < n; ++i) x.as<int64_t>()[i] = i == 0 ? lim - 1 : i == 1 ? -(lim - 1) : (lb ? (int64_t)(rng.next() % (uint64_t)(2 * lim - 1)) - (lim - 1) : 0);
+    for (int ci = 0; ci < 4; ++ci) {
+      set_cfg(CF[ci]); REIM_FROM_ZNX64_PRECOMP* p = new_reim_from_znx64_precomp(m, lb); GBuf r(n * 8, 16); reim_from_znx64(p, r.p, x.as<int64_t>()); free(p);
+      outs.push_back(std::vector<uint8_t>(r.p, r.p + n * 8));
+      if (outs.back() != outs[0]) { err = sfmt("reim_from_znx64(log2bound=%u): cfg %s and cfg %s return different doubles", lb, CF[ci].name, CF[0].name); break; }
+    }
+    set_cfg(CFG_NATIVE);
+  }
+  for (uint32_t lo = 0; lo <= 52 && err.empty(); ++lo) {
+    GBuf x(n * 8, 8); std::vector<std::vector<uint8_t>> outs;
+    for (uint64_t i = 0; i < n; ++i) x.as<double>()[i] = 4.0 * ((double)((int64_t)(rng.next() >> 30)) * 0x1p-16 - 131072.0 + 0x1p-34);  // |x/d| < 2^18, never a tie of the 2^-32 grid
+    for (int ci = 0; ci < 4; ++ci) {
+      set_cfg(CF[ci]); CPLX_TO_TNX32_PRECOMP* p = new_cplx_to_tnx32_precomp(m, 4.0, lo); GBuf r(n * 4, 16); cplx_to_tnx32(p, r.as<int32_t>(), x.p); free(p);
+      outs.push_back(std::vector<uint8_t>(r.p, r.p + n * 4));
+      if (outs.back() != outs[0]) { err = sfmt("cplx_to_tnx32(log2overhead=%u): cfg %s and cfg %s return different torus values", lo, CF[ci].name, CF[0].name); break; }
+    }
+    set_cfg(CFG_NATIVE);
+  }
+  if (!err.empty()) ctx.violation(id, err);
+  ctx.end_case(true);
+}
+
 int main(int argc, char** argv) {
   Args args = parse_args("C07", argc, argv, 420, 1800);
   Ctx ctx(args);
   const bool th = args.thorough();
-  ctx.name_metric(0, "accelerated_variants_compared"); ctx.name_metric(1, "fft_worst_error_over_bound"); ctx.name_metric(2, "api_dft_difference_over_tolerance");
+  ctx.name_metric(0, "accelerated_variants_compared"); ctx.name_metric(1, "fft_worst_error_over_bound"); ctx.name_metric(2, "api_dft_difference_over_tolerance"); ctx.name_metric(3, "dispatch_selected_accelerated"); ctx.name_metric(4, "dispatch_selected_reference"); ctx.name_metric(5, "dispatch_selected_other"); ctx.name_metric(6, "dispatch_differs_from_pinned_tree_thresholds");
   std::vector<KernelGroup> kg = kernel_groups(th);
   ctx.parallel(kg.size(), [&](uint64_t i) { part1(ctx, kg[i], th); }, "kernel variant groups");
   struct It { int kind; uint64_t v; };
@@ -296,12 +356,14 @@ int main(int argc, char** argv) {
   std::stable_sort(groups.begin(), groups.end(), [](const ApiGroup& a, const ApiGroup& b) { return a.N > b.N; });
   ctx.parallel(groups.size(), [&](uint64_t i) { part3(ctx, groups[i], o, cf); }, "public API under every cfg");
   ctx.parallel(1, [&](uint64_t) { part4(ctx); }, "dispatch identity");
+  std::vector<uint64_t> ms5; for (uint64_t m = 1; m <= (th ? 1024u : 64u); m *= 2) ms5.push_back(m);
+  ctx.parallel(ms5.size(), [&](uint64_t i) { part5(ctx, ms5[i]); }, "parameterised constructors under every cfg");
   ctx.assumptions = {"floating-point kernels are never compared bitwise with each other (FMA contraction differs legitimately): both members must be within the a-priori bound of the exact binary128 result",
                      "exported kernels with no portable reference and no documented semantics (cplx_fftvec_bitwiddle_fma/_avx512, cplx_fftvec_add_fma, cplx_fftvec_sub2_to_fma, cplx_fftvec_copy_fma) cannot be judged by this property and are excluded",
                      "every kernel is called from its minimum size (unroll width); the q120 NTT has only an AVX2 implementation (C03)",
                      "NTT120 dft/idft exist only when avx2 is reported; the cfg override can only hide CPU features"};
   return ctx.finish("exploration",
                     "part 1: every variant group of the exported-kernel table (sizes from the kernel minimum, accelerated variants on 8/16/24-byte offset pointers); part 2: 14 pointwise kernels x m x 3 offsets x 2 value sets, 2 twiddle kernels, reim4 dot products x nrows, "
-                    "8 FFT implementations x m against binary128; part 3: entry-point table x shape box x N under 4 dispatch masks; part 4: function-pointer identity of every constructor x m x 4 masks; distinct = distinct case ids",
+                    "8 FFT implementations x m against binary128; part 3: entry-point table x shape box x N under 4 dispatch masks; part 4 (informational): which kernel every constructor selects x m x 4 masks; part 5: parameterised conversion constructors (every log2bound / log2overhead) x m x 4 masks give identical results on non-tie inputs; distinct = distinct case ids",
                     true);
 }
